@@ -255,6 +255,8 @@ def check(ctx):
                     if k == "expr" and isinstance(pl, ast.Call):
                         if any(pl is v.ast for v in vals):
                             return True
+                        if any(x is v.ast for a in pl.args for x in ast.walk(a) for v in vals):
+                            return True         # expanduser(self.validate(...)) written in one expression
                         if any(isinstance(x, ast.Name) and derives(x, depth + 1) for a in pl.args for x in ast.walk(a)):
                             return True
                 return False
